@@ -153,10 +153,11 @@ Definition node_meta (n : node) : meta := match n with Dir m _ => m | File m _ =
 Definition with_meta (g : meta -> meta) (n : node) : node :=
   match n with Dir m l => Dir (g m) l | File m b => File (g m) b | Symlink m t => Symlink (g m) t end.
 
-(* chown/chmod/utimes (follow = true), lchown/lsetxattr (follow = false) *)
-Definition k_setmeta (follow : bool) (g : meta -> meta) (s : bytes) (fs : node) : sysres :=
+(* chown/chmod/utimes (follow = true), lchown/lsetxattr (follow = false); the new
+   attributes may depend on what kind of object is there (chown) *)
+Definition k_setmeta (follow : bool) (g : node -> meta -> meta) (s : bytes) (fs : node) : sysres :=
   match resolve_str fs s follow with
-  | Ok (loc, Some n) => at_loc loc (fun _ => Ok (Some (with_meta g n))) fs
+  | Ok (loc, Some n) => at_loc loc (fun _ => Ok (Some (with_meta (g n) n))) fs
   | Ok (_, None) => Err ENOENT
   | Err e => Err e
   end.
